@@ -388,5 +388,21 @@ theorem compileStab_mixRho (ns : Bool) (ne np nc : Nat) (det : Bool) (ops : List
       rfl) h
   exact ⟨tr, htr, by rw [e, mixRho_init], m⟩
 
+/-! ### clause (a) for whole circuits -/
+
+/-- the action trace clause (a) asks for: per operation, the noise that asks for "before", the gate, the noise that asks for
+    "after" -/
+def wantedAll (np : Nat) : List COp → Nat → List Act
+  | [], _ => []
+  | op :: rest, k => wanted np op k false ++ [Act.gate k] ++ wanted np op k true ++ wantedAll np rest (k + 1)
+
+theorem traceGo_supported (be : Backend) (np : Nat) : ∀ (ops : List COp) (k : Nat), (∀ op ∈ ops, Supported op) →
+    traceGo true be np ops k = .ok (wantedAll np ops k)
+  | [], _, _ => rfl
+  | op :: rest, k, h => by
+    simp only [traceGo, wantedAll]
+    rw [placeOp_supported be np op k (h op List.mem_cons_self),
+      traceGo_supported be np rest (k + 1) (fun o ho => h o (List.mem_cons_of_mem _ ho))]
+
 end MixDM
 end Graphiq
